@@ -82,7 +82,6 @@ func (w *c11World) issue(secret *big.Int, attrs []*big.Int, eIdx int) *Credentia
 	return c
 }
 
-
 func vfRevPrime(i int) *big.Int {
 	// primes well inside the revocation attribute range
 	v := new(big.Int).Add(vfPow2(150), vfInt(int64(i)*1000))
@@ -91,4 +90,3 @@ func vfRevPrime(i int) *big.Int {
 	}
 	return v
 }
-
